@@ -13,7 +13,6 @@ import (
 	"math"
 	"runtime"
 	"sync"
-	"unicode/utf8"
 
 	"github.com/WICG/webpackage/go/internal/cbor"
 	"github.com/WICG/webpackage/go/zz_verif/mon"
@@ -100,7 +99,7 @@ func ref(m *mitem) ([]byte, error) {
 	case kBytes:
 		return rcbor.Bytes(m.b), nil
 	case kText:
-		if !utf8.Valid(m.b) {
+		if !rcbor.ValidUTF8(m.b) {
 			return nil, fmt.Errorf("invalid utf-8")
 		}
 		return rcbor.Text(string(m.b)), nil
